@@ -18,6 +18,7 @@
 #include <kernel/space/lagrange1/element.hpp>
 #include <kernel/space/lagrange2/element.hpp>
 #include <kernel/analytic/common.hpp>
+#include <kernel/analytic/wrappers.hpp>
 #include <kernel/assembly/domain_assembler.hpp>
 #include <kernel/assembly/domain_assembler_helpers.hpp>
 #include <kernel/assembly/burgers_assembly_job.hpp>
@@ -52,6 +53,17 @@ template<class FI> static void put_info(Out& o, const FI& f)
   o.push_back(double(f.value)); o.push_back(f.grad[0]); o.push_back(f.grad[1]);
   o.push_back(f.norm_h0_sqr); o.push_back(f.norm_h1_sqr); o.push_back(f.norm_l1); o.push_back(f.norm_lmax);
 }
+// every field of a function integral result, scalar or vector valued (component-wise norms, divergence / vorticity norms)
+static void put_any(Out& o, double x) { o.push_back(x); }
+template<int n> static void put_any(Out& o, const Tiny::Vector<double, n>& x) { for(int i(0); i < n; ++i) o.push_back(x[i]); }
+template<int m, int n> static void put_any(Out& o, const Tiny::Matrix<double, m, n>& x) { for(int i(0); i < m; ++i) for(int j(0); j < n; ++j) o.push_back(x[i][j]); }
+template<class FI> static void put_info_all(Out& o, const FI& f)
+{
+  put_any(o, f.value); put_any(o, f.grad);
+  o.push_back(f.norm_h0_sqr); o.push_back(f.norm_h1_sqr); o.push_back(f.norm_l1); o.push_back(f.norm_lmax);
+  put_any(o, f.norm_h0_sqr_comp); put_any(o, f.norm_h1_sqr_comp); put_any(o, f.norm_l1_comp); put_any(o, f.norm_lmax_comp);
+  o.push_back(f.divergence_l2_sqr); o.push_back(f.vorticity_l2_sqr);
+}
 static void put_vec(Out& o, const Vec& v) { for(Index i(0); i < v.size(); ++i) o.push_back(v(i)); }
 static void put_vecb(Out& o, const VecB& v) { const double* p = v.template elements<LAFEM::Perspective::pod>(); for(Index i(0); i < v.template size<LAFEM::Perspective::pod>(); ++i) o.push_back(p[i]); }
 static void put_mat(Out& o, const Mat& m) { const double* p = m.val(); for(Index i(0); i < m.used_elements(); ++i) o.push_back(p[i]); }
@@ -78,6 +90,7 @@ struct World
 };
 
 static const char* all_jobs[] = { "matrix1", "matrix2", "linfunc", "force", "analytic", "discrete", "error", "error2", "cellerror",
+                                  "vanalytic", "vdiscrete", "verror",
                                   "burgers_smat", "burgers_svec", "burgers_bmat", "burgers_bvec" };
 
 static Out run_job(const std::string& name, World& w, Assembly::DomainAssembler<TrafoType>& da)
@@ -118,6 +131,19 @@ static Out run_job(const std::string& name, World& w, Assembly::DomainAssembler<
     put_info(o, Assembly::integrate_error_function<1>(da, w.expb, w.u1, w.q1, cub));
   else if(name == "error2")
     put_info(o, Assembly::integrate_error_function<1>(da, w.sine, w.u2, w.q2, cub));
+  else if(name == "vanalytic")
+  {
+    // vector valued integrands: the component-wise norms are combined per component (sums, and a MAXIMUM for the Lmax norm)
+    Analytic::Gradient<decltype(w.sine)> vf(w.sine);
+    put_info_all(o, Assembly::integrate_analytic_function<1, double>(da, vf, cub));
+  }
+  else if(name == "vdiscrete")
+    put_info_all(o, Assembly::integrate_discrete_function<1>(da, w.conv, w.q2, cub));
+  else if(name == "verror")
+  {
+    Analytic::Gradient<decltype(w.expb)> vf(w.expb);
+    put_info_all(o, Assembly::integrate_error_function<1>(da, vf, w.conv, w.q2, cub));
+  }
   else if(name == "cellerror")
   {
     Assembly::CellErrorFunctionIntegralJob<decltype(w.expb), Vec, SpaceQ1, 1> job(w.expb, w.u1, w.q1, cub);
